@@ -28,6 +28,8 @@ class Spec:
         k = t[0]
         if k in ("alloc", "collect"):
             return True
+        if k == "collectb":
+            return self.holds(int(t[1]))
         if k in ("clone", "drop"):
             return self.holds(int(t[1]))
         if k == "link":
@@ -99,7 +101,7 @@ class Spec:
             self.nodes[int(t[1])]["ephs"].append(int(t[2]))
         elif k == "ephunstore":
             self.nodes[int(t[1])]["ephs"].remove(int(t[2]))
-        elif k == "collect":
+        elif k in ("collect", "collectb"):
             live, live_e = self.reach()
             for n in list(self.nodes):
                 if n not in live:
@@ -143,6 +145,8 @@ def candidate_ops(sp, max_nodes, max_ephs):
             ops.append("ephstore %d %d" % (n, e))
         for e in sorted(set(sp.nodes[n]["ephs"])):
             ops.append("ephunstore %d %d" % (n, e))
+        if sp.nodes[n]["edges"]:
+            ops.append("collectb %d" % n)
     for e in sorted(set(sp.ext_e)):
         ops += ["ephdrop %d" % e]
     ops.append("collect")
@@ -202,6 +206,29 @@ def random_history(r, n_ops, max_nodes):
     return hist
 
 
+def eph_chain_histories(max_len):
+    """ephemeron chains key_i -> value_{i+1}, the ephemerons allocated in every order (the order decides how many
+    rounds the pending-ephemeron fix-point needs)"""
+    import itertools
+    out = []
+    for L in range(2, max_len + 1):
+        for perm in itertools.permutations(range(L)):
+            h = ["alloc"] * (L + 1)
+            for i in perm:
+                h.append("eph %d %d" % (i, i + 1))
+            h += ["drop %d" % i for i in range(1, L + 1)]
+            h += ["collect", "drop 0", "collect"]
+            out.append(h)
+            # the same chain with the ephemeron handles stored inside a holder node instead of held externally
+            h2 = ["alloc"] * (L + 2)
+            for j, i in enumerate(perm):
+                h2 += ["eph %d %d" % (i, i + 1), "ephstore %d %d" % (L + 1, j), "ephdrop %d" % j]
+            h2 += ["drop %d" % i for i in range(1, L + 1)]
+            h2 += ["collect", "drop 0", "collect", "drop %d" % (L + 1), "collect"]
+            out.append(h2)
+    return out
+
+
 def run(ck):
     ck.trusted_base += [
         "modelled, not verified: all `unsafe` pointer code of boa_gc (Box::from_raw, vtables, NonNull casts); finalizers are "
@@ -241,6 +268,7 @@ def run(ck):
         ["alloc", "alloc", "alloc", "eph 0 1", "ephstore 2 0", "ephdrop 0", "drop 1", "collect", "drop 0", "collect", "drop 2"],
     ]
     hists += [c + ["collect", "collect"] for c in corpus]
+    hists += [c + ["collect"] for c in eph_chain_histories(4 if quick else 5)]
     for _ in range(300 if quick else 4000):
         hists.append(random_history(r, 10 + r() % (40 if quick else 200), 3 + r() % (8 if quick else 40)))
     for _ in range(3 if quick else 40):
